@@ -15,6 +15,7 @@ PROPAGATING_CBS = ("classifier", "rclassifier", "strategy", "sleeper")
 def _one(ctx, sc, entry, stats, sample=False):
     recs, h, w = rig.run(sc, entry)
     ctx.inc("runs")
+    ctx.inc("calls", len(recs))
     f = sc.get("fault")
     prop = bool(f and f.get("kind") == "cb")
 
@@ -109,7 +110,7 @@ def conclude(ctx):
             "sweep + random mixed histories + systematic abort-at-every-poll-index over the 6 execute() entry points, incl. no-retry policies, breaker rejections, "
             "special exceptions and raising caller callbacks; non-trivial = a not-ok outcome was returned and checked field by field; distinct = distinct (config, script, handler, abort index, entry)"
         ),
-        evaluations=ctx.cnt["runs"],
+        evaluations=ctx.cnt["calls"],
         nontrivial=len(ctx.sets["nontrivial"]),
         floors=floors,
         assumptions=common.ASSUME_COMMON + [
